@@ -44,9 +44,28 @@ def shards(tier):
     return 16
 
 
-def clone(idnt, force_fac=1.0, perturb_retract=None):
-    """value copy of a curve incl. columns and fit properties"""
+def clone(idnt, force_fac=1.0, perturb_retract=None, retract_keep=None):
+    """value copy of a curve incl. columns and fit properties;
+    retract_keep: keep only that fraction of the retract samples"""
     from nanite.indent import Indentation
+    if retract_keep is not None:
+        seg = np.asarray(idnt["segment"])
+        nret = int(np.sum(seg == 1))
+        keep = np.ones(seg.size, dtype=bool)
+        idx = np.nonzero(seg == 1)[0]
+        keep[idx[max(3, int(retract_keep * nret)):]] = False
+        meta = dict(idnt.metadata)
+        meta["point count"] = int(keep.sum())
+        innate = ["force", "segment", "time", "height (measured)",
+                  "tip position"]
+        j = Indentation(data={k: np.array(idnt[k], copy=True)[keep]
+                              for k in innate if k in idnt},
+                        metadata=meta)
+        for k in idnt.columns:
+            if k not in innate:
+                j[k] = np.array(idnt[k], copy=True)[keep]
+        j._fit_properties.update(copy.deepcopy(dict(idnt.fit_properties)))
+        return j
     j = Indentation(data={k: np.array(idnt[k], copy=True)
                           for k in idnt.columns_innate},
                     metadata=dict(idnt.metadata))
@@ -199,7 +218,20 @@ def judge_curve(rec, rng, idnt, case, fitted):
                           (n, a, b) for n, a, b in zip(nm, f0, f1)
                           if not (a == b or (np.isnan(a) and np.isnan(b)))]
                           [:3]), case)
-    # -- retract independence
+    # -- retract independence: number of retract samples
+    for frac in (float(rng.uniform(.05, .6)),):
+        j = clone(idnt, retract_keep=frac)
+        r4 = features(rec, j, dict(case, retract="truncated to %.2f" % frac))
+        rec.evaluated(dg=(case.get("curve"), "retract-length", frac))
+        if r4 is not None:
+            rec.event("retract length comparisons")
+            rec.check(np.array_equal(f0, r4[0], equal_nan=True),
+                      "retract-dependence/length",
+                      lambda: "shortening the retract segment changes %s" % [
+                          (n, a, b) for n, a, b in zip(nm, f0, r4[0])
+                          if not (a == b or (np.isnan(a) and np.isnan(b)))]
+                      [:3], case)
+    # -- retract independence: values
     j = clone(idnt, perturb_retract=rng)
     r3 = features(rec, j, dict(case, retract="perturbed"))
     rec.evaluated(dg=(case.get("curve"), "retract"))
@@ -218,6 +250,8 @@ def synthetic(rng):
         rng, models=["hertz_para", "hertz_cone", "sneddon_spher_approx"],
         npts=(300, 700, 1500, 2500), noise_snr=(1000, 100, 20),
         with_tip=True)
+    # approach and retract of different length (e.g. 700 + 300 points)
+    spec["n_ret"] = int(spec["n"] * float(rng.choice([1, 1, .4, 1.8])))
     idnt, truth = fitlab.build_curve(spec)
     spike = bool(rng.random() < .3)
     if spike:
